@@ -1,6 +1,6 @@
 use crate::prelude::*;
 
-#[derive(Default)]
+#[derive(Default, Clone)]
 struct D2Context {
     data: Vec<u32>,
     pal: Option<Vec<u32>>,
@@ -9,7 +9,23 @@ struct D2Context {
     height: usize,
 }
 
+// A cloned interpreter state shares the host object with the state it was cloned from:
+// give this state its own copy before the first write (copy-on-write, like every other value).
+fn detach_context(xs: &mut Xstate) -> Xresult {
+    let any = xs.get_var(xs.d2)?.to_any()?;
+    // one reference is held by this state's variable, one by `any`
+    if std::rc::Rc::strong_count(&any) > 2 {
+        let copy = {
+            let p = any.try_borrow().map_err(|_| Xerr::TypeError)?;
+            p.downcast_ref::<D2Context>().ok_or(Xerr::TypeError)?.clone()
+        };
+        xs.set_var(xs.d2, Xcell::from_any(copy))?;
+    }
+    OK
+}
+
 fn resize(xs: &mut Xstate) -> Xresult {
+    detach_context(xs)?;
     let any = xs.get_var(xs.d2)?.to_any()?;
     let mut p = any.try_borrow_mut().map_err(|_| Xerr::TypeError)?;
     let d2 = p.downcast_mut::<D2Context>().ok_or(Xerr::TypeError)?;
@@ -30,6 +46,7 @@ pub fn size(xs: &mut Xstate) -> Xresult1<(usize, usize)> {
 }
 
 fn color_set(xs: &mut Xstate) -> Xresult {
+    detach_context(xs)?;
     let any = xs.get_var(xs.d2)?.to_any()?;
     let mut p = any.try_borrow_mut().map_err(|_| Xerr::TypeError)?;
     let d2 = p.downcast_mut::<D2Context>().ok_or(Xerr::TypeError)?;
@@ -53,6 +70,7 @@ fn height_get(xs: &mut Xstate) -> Xresult {
 }
 
 fn palette_set(xs: &mut Xstate) -> Xresult {
+    detach_context(xs)?;
     let any = xs.get_var(xs.d2)?.to_any()?;
     let mut p = any.try_borrow_mut().map_err(|_| Xerr::TypeError)?;
     let d2 = p.downcast_mut::<D2Context>().ok_or(Xerr::TypeError)?;
@@ -67,6 +85,7 @@ fn palette_set(xs: &mut Xstate) -> Xresult {
 }
 
 fn data_set(xs: &mut Xstate) -> Xresult {
+    detach_context(xs)?;
     let any = xs.get_var(xs.d2)?.to_any()?;
     let mut p = any.try_borrow_mut().map_err(|_| Xerr::TypeError)?;
     let d2 = p.downcast_mut::<D2Context>().ok_or(Xerr::TypeError)?;
@@ -100,6 +119,7 @@ fn data_get(xs: &mut Xstate) -> Xresult {
 }
 
 fn clear_all(xs: &mut Xstate) -> Xresult {
+    detach_context(xs)?;
     let any = xs.get_var(xs.d2)?.to_any()?;
     let mut p = any.try_borrow_mut().map_err(|_| Xerr::TypeError)?;
     let d2 = p.downcast_mut::<D2Context>().ok_or(Xerr::TypeError)?;
